@@ -68,6 +68,13 @@ async def _run(events, consumers, sub_hops=0):
                 reader = asyncio.StreamReader()
                 writer = PI.FakeWriter()
                 proto.connection_established(reader, writer)
+            elif ev[0] == 6:
+                # the user closes the connection and opens it again: the same protocol object is shut down and re-established
+                await asyncio.wait_for(proto.shutdown(), timeout=100)
+                await PI.settle(10)
+                reader = asyncio.StreamReader()
+                writer = PI.FakeWriter()
+                proto.connection_established(reader, writer)
             elif ev[0] == 3:
                 await asyncio.sleep(ev[1])          # time passes (the class loading may take seconds on a cold or busy system)
             elif ev[0] == 1:
@@ -175,6 +182,12 @@ class C10(Prop):
                     for apart in (0, 1, 4):
                         evs = [[0, i + 1] for i in range(k)] + [[2, 100], [5, apart], [0, k + 1], [2, 101]]
                         cases.append({"kind": "slow-subscriber", "events": evs, "consumers": consumers, "sub_hops": hops})
+        # the protocol is shut down and re-established (close() and connect() of the user) after the entry exists: the same object
+        # for every later caller and every later frame
+        for consumers in (1, 3):
+            for k in (1, 2):
+                evs = [[0, i + 1] for i in range(k)] + [[1, 0], [2, 100], [6], [2, 101], [0, k + 1], [2, 102], [0, k + 2]]
+                cases.append({"kind": "shutdown-and-reopen", "events": evs, "consumers": consumers})
         # callers of get() with a time-out that expires while the class is still loading, next to callers that keep waiting
         for consumers in (1, 3):
             for k in (1, 2):
@@ -194,7 +207,7 @@ class C10(Prop):
     def model_many(self, cases):
         # (the passing of time is not an event of the model: nothing in it depends on how long the loading takes)
         res = model.call_many("drun", [[True, [([1, 0] if e[0] == 5 else e[:2]) for e in c["events"]
-                                             if e[0] not in (3, 4) and not (e[0] == 2 and e[1] in c.get("gave_up", []))]] for c in cases])
+                                             if e[0] not in (3, 4, 6) and not (e[0] == 2 and e[1] in c.get("gave_up", []))]] for c in cases])
         out = []
         for c, r in zip(cases, res):
             got = sorted(list(p) for p in r[3])
